@@ -672,4 +672,43 @@ CASES = [
     QUILL_LOGGER_CALL_LIMIT(min_interval, QUILL_LIKELY, logger, nullptr, quill::LogLevel::Error,   \\""", """  #define QUILL_LOGJ_ERROR_LIMIT(min_interval, logger, fmt, ...)                                   \\
     QUILL_LOGGER_CALL_LIMIT(min_interval, QUILL_LIKELY, logger, nullptr, quill::LogLevel::Warning,   \\""")]),
  dict(name="c16-transit-log_level-ignores-dynamic", ids=["C16"], rule="C16.R4c", subs=[("backend/TransitEvent.h", "    if (macro_metadata->log_level() != LogLevel::Dynamic)\n    {\n      return macro_metadata->log_level();", "    if (macro_metadata->log_level() != LogLevel::None)\n    {\n      return macro_metadata->log_level();")]),
+
+ # ---------------- C19
+ dict(name="c19-named-7-loses-placeholder", ids=["C19"], rule="C19.R1", subs=[(MAC, """  text " {" #x "}, {" #y "}, {" #z "}, {" #w "}, {" #v "}, {" #u "}, {" #t "}"
+#define QUILL_GENERATE_NAMED_FORMAT_STRING_8""", """  text " {" #x "}, {" #y "}, {" #z "}, {" #w "}, {" #v "}, {" #u "}"
+#define QUILL_GENERATE_NAMED_FORMAT_STRING_8""")]),
+ dict(name="c19-format-3-names-out-of-order", ids=["C19"], rule="C19.R1", subs=[(MAC, '#define QUILL_GENERATE_FORMAT_STRING_3(text, x, y, z) text " [" #x ": {}, " #y ": {}, " #z ": {}]"', '#define QUILL_GENERATE_FORMAT_STRING_3(text, x, y, z) text " [" #x ": {}, " #z ": {}, " #y ": {}]"')]),
+ dict(name="c19-miss-arm-skips-named-args", ids=["C19"], rule="C19.R2a", subs=[(BW, """          _populate_formatted_log_message(transit_event, message_format.data());
+          _populate_formatted_named_args(transit_event, arg_names);
+        }
+      }
+    }
+    else if (transit_event->macro_metadata->event() == MacroMetadata::Event::Flush)""", """          _populate_formatted_log_message(transit_event, message_format.data());
+        }
+      }
+    }
+    else if (transit_event->macro_metadata->event() == MacroMetadata::Event::Flush)""")]),
+ dict(name="c19-hit-arm-uses-original-template", ids=["C19"], rule="C19.R2b", subs=[(BW, """          auto const& [message_format, arg_names] = search->second;
+
+          _populate_formatted_log_message(transit_event, message_format.data());""", """          auto const& [message_format, arg_names] = search->second;
+
+          _populate_formatted_log_message(transit_event, transit_event->macro_metadata->message_format());""")]),
+ dict(name="c19-json-two-writes", ids=["C19"], rule="C19.R3a", subs=[("sinks/JsonSink.h", """    _json_message.append(std::string_view{"}\\n"});
+""", """    _json_message.append(std::string_view{"}\\n"});
+    if (named_args && named_args->size() > 8) { StreamSink::write_log(log_metadata, log_timestamp, thread_id, thread_name, process_id, logger_name, log_level, log_level_description, log_level_short_code, named_args, std::string_view{}, std::string_view{_json_message.data(), _json_message.size() / 2}); }
+""")]),
+ dict(name="c19-json-newline-template-not-used", ids=["C19"], rule="C19.R3d", subs=[("sinks/JsonSink.h", "      message_format = _format.data();\n", "")]),
+ dict(name="c19-json-missing-terminator", ids=["C19"], rule="C19.R3b", subs=[("sinks/JsonSink.h", """    _json_message.append(std::string_view{"}\\n"});
+""", """    if (!named_args) { _json_message.append(std::string_view{"}\\n"}); }
+""")]),
+ dict(name="c19-json-key-value-swapped", ids=["C19"], rule="C19.R3f", subs=[("sinks/JsonSink.h", """        _json_message.append(key);
+        _json_message.append(std::string_view{"\\":\\""});
+        _json_message.append(value);""", """        _json_message.append(value);
+        _json_message.append(std::string_view{"\\":\\""});
+        _json_message.append(key);""")]),
+ dict(name="c19-cache-key-is-positional-template", ids=["C19"], rule="C19.R2", subs=[(BW, """          auto const [res_it, inserted] = _named_args_templates.try_emplace(
+            _named_args_format_template,
+            _process_named_args_format_message(transit_event->macro_metadata->message_format()));""", """          auto parsed = _process_named_args_format_message(transit_event->macro_metadata->message_format());
+          std::string const pos_key = parsed.first;
+          auto const [res_it, inserted] = _named_args_templates.try_emplace(pos_key, parsed);""")]),
 ]
